@@ -106,6 +106,9 @@ def mfopen_stacks(rnd, tier):
                     orders = [disk, disk[::-1]]
                     if len(disk) == 3:
                         orders.append([disk[1], disk[2], disk[0]])
+                    # the same path more than once
+                    orders.append(disk + [disk[0]])
+                    orders.append([disk[-1], disk[-1]])
                     for o in orders:
                         args = {'dim': d, 'via': via}
                         # open_mfdataset without a dimension name picks the
@@ -225,6 +228,23 @@ def stringform_applies(rnd, tier):
     return progs
 
 
+def selection_applies(rnd, tier):
+    """C03: functions that only select or reorder elements (reverse,
+    sub-sampling, first element) along every dimension of the templates with
+    masked variables - also where unmasked cells hold inf / nan (T6): every
+    cell moves with its mask and its value."""
+    dims = {'T2': ['t', 'z', 'x'], 'T6': ['t', 'x'], 'T7': ['t', 'z', 'y', 'x'],
+            'T4': ['t', 'y', 'x']}
+    progs = []
+    for t in sorted(dims):
+        for d in dims[t]:
+            for fn in ('rev', 'sub2', 'first'):
+                progs.append({'templates': [t], 'steps': [{
+                    'act': 'apply', 'src': 1, 'others': [], 'args': {
+                        'funcs': [{'d': d, 'kind': 'callable', 'f': fn}]}}]})
+    return progs
+
+
 def multidim_applies(rnd, tier):
     """C03: every pair / triple of dimensions of every template reduced in ONE
     call - with one reducer name for all of them, and with min/max
@@ -281,7 +301,8 @@ def run(prop, tier, extra=None):
         if prop == 'C06':
             focus = rnd.choice(['arith', 'eval', 'mask'])
         # C06: also the template with non-finite data (inf - inf, nan ...)
-        tpl = cd.TEMPLATES + ['T6', 'T6'] if prop == 'C06' else None
+        # (C03: selection functions carry non-finite cells and masks along)
+        tpl = cd.TEMPLATES + ['T6', 'T6'] if prop in ('C06', 'C03') else None
         progs.append(cd.gen_program(rnd, rnd.choice(c['depths']), focus=focus,
                                     templates=tpl))
     if prop == 'C01':
@@ -296,6 +317,7 @@ def run(prop, tier, extra=None):
     if prop == 'C03':
         progs += multidim_applies(rnd, tier)
         progs += stringform_applies(rnd, tier)
+        progs += selection_applies(rnd, tier)
     if prop == 'C02':
         progs += zipped_selections(rnd, tier)
         progs += stringform_slices(rnd, tier)
